@@ -450,10 +450,34 @@ func handleCrashes(c *Check, tier string, seed int, pool *Pool, crashes []*Outco
 			res.kf[id]++
 			continue
 		}
-		// minimise: tape of a crashed run is unknown (worker died) -> re-derive by seed; shrink by replaying prefixes is impossible
-		// without the tape, so report the seed itself.
+		// the tape of a run that kills its worker never comes back with a result: run the seed once more with the tape dumped
+		// to a file as it is consumed, then shrink it while the same crash signature persists
 		rf := &ReplayFile{Property: c.ID, Clause: it.Clause, Tier: tier, Seed: cr.Seed, BatchSeed: seed, RepoRev: repoRev(),
 			Items: []Item{it}, Crash: tail(re.Crashed, 8000), Repro: "reproduced 2/2 by run-seed in fresh workers"}
+		dump := filepath.Join(os.TempDir(), fmt.Sprintf("vsim-tape-%d-%d", os.Getpid(), cr.Seed))
+		pool.Do(Request{Prop: c.ID, Tier: tier, Seed: cr.Seed, DumpTape: dump})
+		if tape, err := ReadTapeDump(dump); err == nil && len(tape) > 0 {
+			sig := it.Fields["signature"]
+			pred := func(o *Outcome) bool { return o != nil && o.Crashed != "" && crashSignature(o.Crashed) == sig }
+			budget := 20 * time.Second
+			if tier == "thorough" {
+				budget = 90 * time.Second
+			}
+			min, _, tried := Minimize(pool, Request{Prop: c.ID, Tier: tier, Seed: cr.Seed}, tape, pred, budget)
+			chk := pool.DoAll([]Request{{Prop: c.ID, Tier: tier, Seed: cr.Seed, Replay: true, Tape: min}, {Prop: c.ID, Tier: tier, Seed: cr.Seed, Replay: true, Tape: min}})
+			okc := 0
+			for _, o := range chk {
+				if pred(o) {
+					okc++
+					rf.Crash = tail(o.Crashed, 8000)
+				}
+			}
+			if okc > 0 {
+				rf.Tape, rf.OrigLen, rf.MinTried = min, len(tape), tried
+				rf.Repro = fmt.Sprintf("reproduced 2/2 by run-seed; %d/2 replays of the minimised tape (%d of %d values) die with the same signature", okc, len(min), len(tape))
+			}
+		}
+		os.Remove(dump)
 		path := writeReplay(rf)
 		fmt.Printf("VIOLATION property=%s replay=%s\n", c.ID, path)
 		res.violations++
